@@ -136,6 +136,30 @@ def metadata_for(c, nonce, revoke=True):
     return composite(*items)
 
 
+def verifier_of_shape(shape):
+    """the verifier is any callable that returns an awaitable (Routing.tla: the decision does not depend on its shape): an `async def`
+    function, an object with an async __call__, a plain function that passes the call through to one (a decorator), a functools.partial"""
+    import functools
+    if shape == 'callable_object':
+        class V:
+            async def __call__(self, route, authentication):
+                return await verifier(route, authentication)
+        return V()
+    if shape == 'wrapped':
+        @functools.wraps(verifier)
+        def passthrough(route, authentication):
+            return verifier(route, authentication)
+        return passthrough
+    if shape == 'partial':
+        async def v3(tag, route, authentication):
+            return await verifier(route, authentication)
+        return functools.partial(v3, 'x')
+    return verifier
+
+
+SHAPES = ['async_def', 'callable_object', 'wrapped', 'partial']
+
+
 async def verifier(route, authentication):
     """a function of (route, credentials) at the time of the call"""
     tok = bytes(getattr(authentication, 'password', None) or getattr(authentication, 'token', None))
@@ -235,12 +259,12 @@ def run(v):
     asyncio.set_event_loop(loop)
     replayed = 0
 
-    async def run_group(cases, sigvariant, passes):
+    async def run_group(cases, sigvariant, passes, shape='async_def'):
         nonlocal replayed
         c0 = cases[0][0]
         log = []
         router = make_router(table_for(c0), log, sigvariant)
-        handler = RoutingRequestHandler(router, verifier if c0['verifier'] else None)
+        handler = RoutingRequestHandler(router, verifier_of_shape(shape) if c0['verifier'] else None)
         for p in range(passes):
             order = list(cases)
             rnd.shuffle(order)
@@ -314,7 +338,9 @@ def run(v):
         cases = groups[key]
         variants = [gi % 5] if not thorough else [0, 1, 2, 3, 4]
         for sv in variants:
-            loop.run_until_complete(asyncio.wait_for(run_group(cases, sv, 2), 120))
+            # every group is also driven with two of the four verifier shapes (all four in the thorough tier)
+            for shape in (SHAPES if thorough else [SHAPES[gi % 4], SHAPES[(gi + 1 + sv) % 4]]):
+                loop.run_until_complete(asyncio.wait_for(run_group(cases, sv, 2, shape), 120))
         loop.run_until_complete(asyncio.wait_for(overlapping(cases), 60))
     loop.close()
     v.add('spec_rows_replayed', replayed)
